@@ -174,7 +174,7 @@ pub fn build_perm_info(r: &mut Rng, n: usize, k: usize, degree: usize, fancy: bo
 
 fn accepted_iff(expected: bool, v: &str) -> bool { if expected { v == "ok" } else { v != "ok" } }
 
-fn pv(drv: &Driver, cfg: &StarkConfig, rows: &[Vec<F>], pis: &[F]) -> (String, String, Option<Sp>) {
+pub(crate) fn pv(drv: &Driver, cfg: &StarkConfig, rows: &[Vec<F>], pis: &[F]) -> (String, String, Option<Sp>) {
     match (drv.prove)(cfg, rows, pis) {
         ProveOut::Proof(p) => { let v = (drv.verify)(cfg, (*p).clone()); ("proof".into(), v, Some(*p)) }
         ProveOut::Err(e) => (format!("err({})", e.chars().take(40).collect::<String>().replace(' ', "_")), "-".into(), None),
@@ -271,7 +271,7 @@ fn lookup_cases(w: &mut dyn Write, r: &mut Rng, b: &Built, info: &PermInfo, cnam
 #[derive(Clone, Debug)]
 pub struct TwcSpec { pub table: usize, pub cols: Vec<ColSpec>, pub filter: FilterSpec }
 impl TwcSpec {
-    fn to_twc(&self) -> TableWithColumns<F> {
+    pub(crate) fn to_twc(&self) -> TableWithColumns<F> {
         TableWithColumns::new(self.table, self.cols.iter().map(|c| c.to_column()).collect(), self.filter.to_filter())
     }
 }
@@ -323,7 +323,7 @@ fn ctlsys_line(w: &mut dyn Write, sys: &System) {
     writeln!(w, "ctlsys {} = {}", join(&v), ctl_holds(sys) as u8).unwrap();
 }
 
-type S4 = Fam<4, 0>;
+pub(crate) type S4 = Fam<4, 0>;
 
 fn prove_system<const NT: usize>(sys: &System, cfg: &StarkConfig, tamper: Option<(usize, usize, usize, u64)>) -> Result<Vec<Sp>, String> {
     let res = catch_unwind(AssertUnwindSafe(|| -> anyhow::Result<Vec<Sp>> {
@@ -356,7 +356,7 @@ fn prove_system<const NT: usize>(sys: &System, cfg: &StarkConfig, tamper: Option
     match res { Ok(Ok(p)) => Ok(p), Ok(Err(e)) => Err(format!("err({})", format!("{e}").chars().take(40).collect::<String>().replace(' ', "_"))), Err(_) => Err(panic_site()) }
 }
 
-fn ctl_challenges_of(proofs: &[Sp], cfg: &StarkConfig) -> (Challenger<F, H>, GrandProductChallengeSet<F>) {
+pub(crate) fn ctl_challenges_of(proofs: &[Sp], cfg: &StarkConfig) -> (Challenger<F, H>, GrandProductChallengeSet<F>) {
     let mut challenger = Challenger::<F, H>::new();
     for p in proofs { challenger.observe_cap(&p.proof.trace_cap) }
     let c = get_grand_product_challenge_set(&mut challenger, cfg.num_challenges);
@@ -392,7 +392,7 @@ fn verify_system<const NT: usize>(sys: &System, cfg: &StarkConfig, proofs: &[Sp]
     })
 }
 
-fn pv_system(sys: &System, cfg: &StarkConfig, tamper: Option<(usize, usize, usize, u64)>) -> (String, String, Option<Vec<Sp>>) {
+pub(crate) fn pv_system(sys: &System, cfg: &StarkConfig, tamper: Option<(usize, usize, usize, u64)>) -> (String, String, Option<Vec<Sp>>) {
     let pr = match sys.tables.len() { 2 => prove_system::<2>(sys, cfg, tamper), 3 => prove_system::<3>(sys, cfg, tamper), _ => prove_system::<4>(sys, cfg, tamper) };
     match pr {
         Ok(p) => { let v = vs(sys, cfg, &p); ("proof".into(), v, Some(p)) }
